@@ -111,7 +111,13 @@ def concrete_run(spec, job, inputs, numeric=float):
         err = traceback.format_exc()
     symex._CtxBase.cur = None
     failed = [l for l, _ in c.failed]
-    return dict(failed=failed, error=err, summary=_jsonable(getattr(c, "summary", None)),
+    summ = getattr(c, "summary", None)
+    if callable(summ):
+        try:
+            summ = summ()
+        except Exception:
+            summ = "summary failed: " + traceback.format_exc()[-300:]
+    return dict(failed=failed, error=err, summary=_jsonable(summ),
                 assume_failed=bool(c.assume_failed), poison=c.poison)
 
 
